@@ -90,6 +90,44 @@ Theorem C11_inadmissible_refused : forall st ss x, Inv st ss -> names_vanilla x 
 Proof. exact inadmissible_refused. Qed.
 Print Assumptions C11_inadmissible_refused.
 
+(* (9b) make-instance with init arguments (Instance.Init).  For every admissible history each keyword/value pair
+   sets the instance variable of that name when the variable -- own or inherited, found by precedence -- is inittable,
+   and otherwise goes to the plist handed to :init when it is an init keyword found by precedence (own or inherited
+   :default-init-plist / :init-keywords entry); any other keyword is refused.  A name that is both a variable and a keyword
+   is a variable first.  [s_make_code] reads inittable-ness and the required keywords from the instantiated flavor's
+   own declaration, as the code does; on the guard g_init that is also what inheritance of these two options demands. *)
+Theorem C11_make_instance_code_rule : forall h f args, wf h = true -> defined (decls h) f = true ->
+  make_instance (final h) f args = s_make_code (decls h) f args.
+Proof. exact make_instance_code_rule. Qed.
+Print Assumptions C11_make_instance_code_rule.
+Theorem C11_make_instance_by_precedence : forall h f args, wf h = true -> defined (decls h) f = true ->
+  g_init (decls h) f args = true -> make_instance (final h) f args = s_make (decls h) f args.
+Proof. exact make_instance_by_precedence. Qed.
+Print Assumptions C11_make_instance_by_precedence.
+Theorem C11_make_instance_order_irrelevant : forall h h', wf h = true -> wf h' = true -> Permutation h h' -> writes_once h ->
+  forall f args, defined (decls h) f = true -> make_instance (final h) f args = make_instance (final h') f args.
+Proof. exact order_irrelevant_make. Qed.
+Print Assumptions C11_make_instance_order_irrelevant.
+(* outside g_init the code does not inherit the two options (known findings) *)
+Theorem C11_initable_not_inherited_refuted :
+  wf h_inits = true /\ make_instance (final h_inits) 2 [(0, 5%Z)] = None /\
+  s_make (decls h_inits) 2 [(0, 5%Z)] = Some ([(0, 5%Z)], []) /\ g_init (decls h_inits) 2 [(0, 5%Z)] = false.
+Proof. exact initable_not_inherited. Qed.
+Print Assumptions C11_initable_not_inherited_refuted.
+Theorem C11_required_not_inherited_refuted :
+  wf h_reqs = true /\ make_instance (final h_reqs) 2 [] = Some ([], []) /\ make_instance (final h_reqs) 1 [] = None /\
+  s_make (decls h_reqs) 2 [] = None /\ g_init (decls h_reqs) 2 [] = false.
+Proof. exact required_not_inherited. Qed.
+Print Assumptions C11_required_not_inherited_refuted.
+(* non-vacuity: x is an inittable variable of base and an init keyword of a mixin; the variable is set, k1 goes to :init *)
+Theorem C11_example_make_instance :
+  wf h_initvar = true /\ g_init (decls h_initvar) 3 [(0, 5%Z); (2, 9%Z)] = true /\
+  make_instance (final h_initvar) 3 [(0, 5%Z); (2, 9%Z)] = Some ([(0, 5%Z)], [(2, 9%Z)]) /\
+  make_instance (final h_initvar) 3 [(4, 1%Z)] = None /\
+  inst_value (s_var (decls h_initvar) 3 0) 0 [(0, 5%Z)] = Some (Some 5%Z).
+Proof. exact example_make_instance. Qed.
+Print Assumptions C11_example_make_instance.
+
 (* The model's explicit fuel outcomes never occur: ErrFuel is excluded by C11_admissible_accepted (outcome Ok) and
    C11_inadmissible_refused (outcome = the specification's error); a send never answers ROutOfFuel, whatever the state
    and the number of whoppers. *)
